@@ -1,6 +1,9 @@
 """C17 input generation: valid seeds per entry point, byte- and structure-level mutations, boundary lengths, deep nesting."""
 import json
 import random
+import sys
+
+sys.setrecursionlimit(20000)     # mutants of mutants nest JSON a few hundred levels deep
 
 USER = "@alice:example.org"
 ROOM = "!room:example.org"
@@ -490,6 +493,13 @@ def replace_at(v, path, fn):
 
 
 def json_mutations(text, rng, budget, deep=(100, 126, 127, 128, 129, 200)):
+    try:
+        return _json_mutations(text, rng, budget, deep)
+    except RecursionError:
+        return []
+
+
+def _json_mutations(text, rng, budget, deep):
     try:
         v = json.loads(text)
     except Exception:
